@@ -152,6 +152,19 @@ impl StreamCapture {
     }
 }
 
+/// Verification export: run the foreground capture loop over an arbitrary reader and return the
+/// preview lines plus the JSON form the tool reports.
+#[cfg(rip_verif)]
+pub async fn verif_capture_stream<R: AsyncRead + Unpin>(
+    stream: R,
+    config: &BuiltinToolConfig,
+    max_preview_bytes: usize,
+) -> (Vec<String>, serde_json::Value) {
+    let capture = capture_stream(Some(stream), config, max_preview_bytes).await;
+    let json = capture.as_json();
+    (capture.preview_lines, json)
+}
+
 async fn capture_stream<R: AsyncRead + Unpin>(
     stream: Option<R>,
     config: &BuiltinToolConfig,
